@@ -588,6 +588,89 @@ def check_methods(ctx, env, cases):
     return len(cases)
 
 
+# ----------------------------------------------------------------------------- Go slice wrapper, spare capacity
+def gen_gs_cases(rng, n):
+    """Go []interface{} / *[]interface{} wrappers over a backing array whose spare capacity holds stale non-nil
+    sentinels; script growth within capacity (write at len+k, length assignment, push), Go-side truncation in
+    between (leaves real stale values behind), growth beyond capacity, shrinking."""
+    cases = []
+    vals = ["a", "b", "c", 1, 2, 3, "z", 0, ""]
+    for _ in range(n):
+        cap = cap0 = rng.randint(1, 12)      # cap0: capacity of the backing array; cap tracks growth
+        ln = rng.randint(0, cap)
+        ptr = rng.random() < 0.6
+        init = [rng.choice(vals) for _ in range(ln)]
+        cur = ln
+        ops = []
+        for _ in range(rng.randint(1, 8)):
+            x = rng.random()
+            if x < 0.35:
+                # indexed write: mostly at len+k within capacity, sometimes in place or beyond capacity
+                y = rng.random()
+                if y < 0.6 and cur < cap:
+                    i = rng.randint(cur, cap - 1)
+                elif y < 0.8 and cur > 0:
+                    i = rng.randrange(cur)
+                else:
+                    i = cap + rng.randint(0, 3)
+                ops.append(["set", i, rng.choice(vals)])
+                cur = max(cur, i + 1)
+            elif x < 0.6:
+                m = rng.randint(0, cap) if rng.random() < 0.8 else cap + rng.randint(1, 4)
+                ops.append(["len", m])
+                cur = m
+            elif x < 0.75 and ptr and cur > 0:
+                m = rng.randrange(cur)
+                ops.append(["gotrunc", m])
+                cur = m
+            elif x < 0.9:
+                ops.append(["push", rng.choice(vals)])
+                cur += 1
+            else:
+                ops.append(["pop"])
+                cur = max(0, cur - 1)
+            cap = max(cap, cur)
+        cases.append({"cap": cap0, "init": init, "ptr": ptr, "ops": ops})
+    return cases
+
+
+def check_gs(ctx, env, cases):
+    lines = ["gs " + json.dumps(c, separators=(",", ":")) for c in cases]
+    outs = run_sharded(ctx, env.harness, lines, shards=8)
+    bad = 0
+    for c, line, o in zip(cases, lines, outs):
+        ctx.count(1)
+        if o == "TIMEOUT":
+            continue
+        rep = {"kind": "input", "case": c, "line": line, "observed": o}
+        kinds = ",".join(sorted(set(op[0] for op in c["ops"])))
+        if o is None or o.startswith(("ERR", "PANIC", "BADOP")) or o.count(" @@ ") != 2:
+            bad += 1
+            ctx.violation("goslice-crash:%s" % kinds, "Go slice wrapper case crashed: %s" % (o or "")[:200], rep)
+            continue
+        st, tt, gofinal = o.split(" @@ ")
+        ctx.nontriv("gs|%d|%d|%s|%s" % (c["cap"], len(c["init"]), c["ptr"], json.dumps(c["ops"])))
+        env.stats["goslice_cases"][kinds] = env.stats["goslice_cases"].get(kinds, 0) + 1
+        if st != tt:
+            sl, tl = st.split(";"), tt.split(";")
+            k = next((i for i in range(min(len(sl), len(tl))) if sl[i] != tl[i]), 0)
+            rep["expected"] = tt
+            rep["first_difference"] = {"after_op": (c["ops"][k - 1] if k > 0 else "initial"), "wrapper": sl[k], "array_twin": tl[k]}
+            bad += 1
+            ctx.violation("goslice-differs-from-array-twin:%s" % (c["ops"][k - 1][0] if k > 0 else "initial"),
+                          "Go slice wrapper (cap %d, spare capacity holds stale values) after %s reads %s, the Array twin %s" % (
+                              c["cap"], json.dumps(c["ops"][k - 1] if k > 0 else "init"), sl[k][:120], tl[k][:120]), rep)
+            continue
+        last = tt.split(";")[-1]
+        want_go = last[:last.index("]") + 1]
+        if gofinal != want_go:
+            rep["expected"] = want_go
+            bad += 1
+            ctx.violation("goslice-go-value-differs-from-script-view:%s" % kinds,
+                          "Go-side value %s differs from what the script (and the Array twin) sees: %s" % (gofinal[:120], want_go[:120]), rep)
+    return bad
+
+
 # ----------------------------------------------------------------------------- corpus
 def load_corpus():
     d = os.path.join(ROOT, "corpus", "C07")
@@ -616,7 +699,7 @@ def run_direct(ctx, env, entry, fn):
 def main(ctx):
     env = Env()
     env.stats = {"tags_final": {}, "transitions": {"dense->sparse": 0, "sparse->dense": 0}, "std_fastpath_final": 0,
-                 "sort_cases": {}, "method_cases": {}}
+                 "sort_cases": {}, "method_cases": {}, "goslice_cases": {}}
     env.tag_mismatch = []
     env.quirks = {}
     env.ts_hits = {}
@@ -646,6 +729,7 @@ def main(ctx):
     corpus = load_corpus()
     seqs = []
     corpus_meth = []
+    corpus_gs = []
     for fn, e in corpus:
         if e.get("type") == "direct":
             run_direct(ctx, env, e, fn)
@@ -655,6 +739,8 @@ def main(ctx):
             check_sort(ctx, env, [e["case"]])
         elif e.get("type") == "meth":
             corpus_meth.append(e["case"])
+        elif e.get("type") == "gs":
+            corpus_gs.append(e["case"])
     nseq = 2500 if thorough else 160
     for k in range(nseq):
         ops = gen_seq(rng, allow_fill=(k % 4 == 0))
@@ -706,6 +792,10 @@ def main(ctx):
     ctx.obligation("oracle:methods-fastpath=generic(metamorphic)", "correspondence", env.method_bad == 0, "%d cases differ" % env.method_bad)
 
     ctx.stats["std_fastpath_final"] = env.stats["std_fastpath_final"]
+    # 4. Go slice wrappers with spare capacity
+    gbad = check_gs(ctx, env, corpus_gs + gen_gs_cases(rng, 4000 if thorough else 400))
+    ctx.obligation("oracle:goslice-wrapper=array-twin(spare-capacity,script+go-view)", "correspondence", gbad == 0, "%d cases differ" % gbad)
+
     ctx.stats["inconclusive_timeouts"] = {"count": len(INCONCLUSIVE), "lines": INCONCLUSIVE[:5]}
     if INCONCLUSIVE:
         ctx.log("inconclusive (timeout, retried once):", len(INCONCLUSIVE))
